@@ -148,6 +148,11 @@ def const_of(node):
                     'Div': a // b if b else None, 'Rem': a % b if b else None, 'BitAnd': a & b, 'BitOr': a | b}[n[1]]
         except Exception:
             return None
+    if n[0] == 'phi' and n[1]:
+        vals = {const_of(a) for a in n[1]}
+        if len(vals) == 1 and None not in vals:
+            return vals.pop()
+        return None
     if n[0] == 'proj' and strip(n[1])[0] == 'agg' and n[2] and n[2][0][0] == 'f':
         inner = strip(n[1])
         names = inner[3] if len(inner) > 3 else None
